@@ -954,7 +954,7 @@ def _c20_make(d, with_backup, with_bootstrap):
     if with_bootstrap:
         from wikitextprocessor.luaexec import add_empty_sandbox_lua_module  # noqa
         try:
-            ctx.add_page("Module:_sandbox_", 828, "return {}", model="Scribunto")
+            ctx.add_page("Module:_sandbox_phase1", 828, "", model="Scribunto")
         except Exception:
             pass
     ctx.db_conn.commit()
@@ -999,7 +999,7 @@ def impl_c20(case, scratch):
             ref_out[t] = rctx.expand(t)
         rctx.db_conn.commit()
         rctx.db_conn.close()
-        before = [r for r in _c20_pages_table(ref_db) if r[0] != "Module:_sandbox_"]
+        before = [r for r in _c20_pages_table(ref_db) if r[0] != "Module:_sandbox_phase1"]
         procs, outs = [], []
         barrier = os.path.join(d, "go")
         for w, spec in enumerate(case["workers"]):
@@ -1039,7 +1039,7 @@ def impl_c20(case, scratch):
             r["want"] = [ref_out[t] for t in s["pages"]]
             results.append(r)
         try:
-            after = [r for r in _c20_pages_table(p) if r[0] != "Module:_sandbox_"]
+            after = [r for r in _c20_pages_table(p) if r[0] != "Module:_sandbox_phase1"]
         except Exception as e:  # noqa
             after = ["unreadable: %s" % type(e).__name__]
         return {"outcome": "ok", "results": results, "before": before, "after": after, "files": sorted(os.listdir(d))}
